@@ -224,7 +224,12 @@ fn stream_case(bytes: &[u8], src: F, to: F, docs: &[V], mode: &str, chunk: usize
 }
 
 fn judge_stream(t: &mut Tally, bytes: &[u8], src: F, docs: &[V], to: F, d: usize, label: &str) {
-	let Some(refs) = reference_for(docs, to) else { return };
+	let Some(refs) = reference_for(docs, to) else {
+		// every document of these streams is in the common model and every target here is a
+		// streaming one: a document that does not translate on its own is already wrong
+		t.bad(format!("single-document-refused:{}", to.name()), stream_case(bytes, src, to, docs, "reference", 0, &[], false), format!("{label}: one of the documents, translated alone (MessagePack spelling, slice) to {}, is refused", to.name()));
+		return;
+	};
 	let expected: Vec<u8> = refs.concat();
 	let want: Vec<String> = docs.iter().map(V::dump).collect();
 	let detectable = docs.first().is_some_and(V::is_collection) && crate::run::detect_slice(bytes) == Ok(Some(src));
